@@ -25,6 +25,12 @@ type SearchOptions struct {
 	UseFuzzy       bool               `json:"use_fuzzy,omitempty"`
 	FuzzyThreshold int                `json:"fuzzy_threshold,omitempty"`
 	UseNLP         bool               `json:"use_nlp,omitempty"`
+	// Options that change the answer must be part of the key: without them a search for all
+	// platforms and one for the host platform shared a cached entry.
+	TopTermsCap     int      `json:"top_terms_cap,omitempty"`
+	AllPlatforms    bool     `json:"all_platforms,omitempty"`
+	Platforms       []string `json:"platforms,omitempty"`
+	NoCrossPlatform bool     `json:"no_cross_platform,omitempty"`
 }
 
 // SearchCache provides caching for search results
